@@ -965,6 +965,38 @@ func (e *CEnv) call(n *ast.CallExpr) TV {
 		case "isnil":
 			a := e.eval(n.Args[0])
 			return TV{Scalar{e.eqRef(a.V, RefV{Const(32, 0)})}, types.Typ[types.Bool]}
+		case "ncalls":
+			name := n.Args[0].(*ast.BasicLit).Value
+			name = name[1 : len(name)-1]
+			var cnt *Term = Const(64, 0)
+			for _, ev := range e.post.Events {
+				if ev.Callee == name {
+					cnt = bin("bvadd", cnt, Ite(ev.Guard, Const(64, 1), Const(64, 0)))
+				}
+			}
+			return TV{Scalar{cnt}, types.Typ[types.Int]}
+		case "callarg":
+			name := n.Args[0].(*ast.BasicLit).Value
+			name = name[1 : len(name)-1]
+			idx, _ := strconv.Atoi(n.Args[1].(*ast.BasicLit).Value)
+			var found *Event
+			for i := range e.post.Events {
+				if e.post.Events[i].Callee == name {
+					if found != nil {
+						fail("contract: callarg(%s) is ambiguous (more than one call)", name)
+					}
+					found = &e.post.Events[i]
+				}
+			}
+			if found == nil || idx >= len(found.Args) {
+				// no such call: an unconstrained value (the accompanying ncalls clause fails)
+				return TV{Scalar{x.freshVar("nocall", BV(64))}, nil}
+			}
+			t := found.Args[idx]
+			if idx == 0 {
+				return TV{RefV{t}, nil}
+			}
+			return TV{Scalar{t}, nil}
 		case "sext":
 			// sext(x): sign-extend to 64 bits as int
 			a := e.eval(n.Args[0])
@@ -999,6 +1031,31 @@ func (e *CEnv) call(n *ast.CallExpr) TV {
 		}
 		// method call on a value
 		recv := e.eval(sel.X)
+		if it, isI := recv.T.Underlying().(*types.Interface); isI {
+			for i := 0; i < it.NumMethods(); i++ {
+				m := it.Method(i)
+				if m.Name() != sel.Sel.Name {
+					continue
+				}
+				name := typeString(recv.T) + "." + m.Name()
+				if !x.w.pureMethods[name] {
+					fail("contract: %s is not declared pure", name)
+				}
+				ts := []*Term{x.refOf(recv.V)}
+				sig := m.Type().(*types.Signature)
+				for k, a := range n.Args {
+					tv := e.eval(a)
+					if sc, ok := tv.V.(Scalar); ok && tv.T == nil {
+						w, _, _ := bitsOf(sig.Params().At(k).Type())
+						tv = TV{Scalar{resize(sc.T, w)}, sig.Params().At(k).Type()}
+					}
+					ts = append(ts, x.leafTerm(tv.V))
+				}
+				rt := sig.Results().At(0).Type()
+				rs, _ := leafSort(rt)
+				return TV{x.leafValue(Apply(name+"#0", rs, ts...), rt), rt}
+			}
+		}
 		ms := x.w.prog.MethodSets.MethodSet(recv.T)
 		for i := 0; i < ms.Len(); i++ {
 			if ms.At(i).Obj().Name() == sel.Sel.Name {
